@@ -1,20 +1,21 @@
 /-
 C09: stopping the Redis upstream (`proc/redis/upstream.go`: Stop, the tail of Serve, createClient)
-while a backend connection's read loop is following a redirection.  Serve takes `clientsMu` once
-after quit is closed — that waits for a connection being created and, since createClient checks
-quit under the lock, none is created afterwards — and (as repaired, F-09h) releases it before it
-stops the clients of its snapshot.
+while a backend connection's read loop is following a redirection.  createClient (as repaired,
+F-07e) connects without the lock: it checks quit and the table under the lock, connects, and
+takes the lock again to check quit once more and publish the connection — what would be added
+after quit is closed instead.  Serve takes `clientsMu` once after quit is closed and (as repaired,
+F-09h) releases it before it stops the clients of its snapshot.
 -/
 namespace SamVerif.UpStop
 
-inductive Mu | free | creator | stopper
+inductive Mu | free | stopper
 deriving Repr, DecidableEq
 
 /-- a client's read loop handling a redirection (`handleRedirection` → `MakeRequestToHost` → `getClient` → `createClient`) -/
 inductive RL
   | idle       -- reading replies
   | checked    -- past the quit check of MakeRequestToHost, on its way to createClient
-  | dialing    -- in createClient, holding clientsMu, the dial in progress
+  | dialing    -- in createClient, the connect in progress (the lock is not held)
   | done       -- back in the loop (the redirected request was sent, or refused)
 deriving Repr, DecidableEq
 
@@ -37,8 +38,8 @@ deriving Repr, DecidableEq
 
 inductive Label
   | redirect      -- A's read loop gets MOVED/ASK: MakeRequestToHost checks quit
-  | rlLock        -- … acquires clientsMu in createClient, checks quit again, starts the dial
-  | dialDone      -- the dial succeeds: B is started and published, the lock released
+  | rlLock        -- … takes clientsMu in createClient, checks quit again, releases it and starts to connect
+  | dialDone      -- the connect succeeds; under the lock again: quit → the new connection is closed, else B is started and published
   | stopQuit      -- Stop closes quit
   | stopLock      -- Serve (its loops have ended) acquires clientsMu and loads the table
   | stopUnlock    -- (repaired) releases it
@@ -54,9 +55,12 @@ def step (u : U) : Label → Option U
     else none
   | .rlLock =>
     if u.rl = .checked ∧ u.mu = .free then
-      (if u.quit then some { u with rl := .done } else some { u with rl := .dialing, mu := .creator })
+      (if u.quit then some { u with rl := .done } else some { u with rl := .dialing })
     else none
-  | .dialDone => if u.rl = .dialing then some { u with rl := .done, mu := .free, bRunning := true } else none
+  | .dialDone =>
+    if u.rl = .dialing ∧ u.mu = .free then
+      (if u.quit then some { u with rl := .done } else some { u with rl := .done, bRunning := true })
+    else none
   | .stopQuit => if u.sp = .idle then some { u with sp := .quitClosed, quit := true } else none
   | .stopLock =>
     if u.sp = .quitClosed ∧ u.mu = .free then some { u with sp := .locked, mu := .stopper, snapA := u.aRunning, snapB := u.bRunning } else none
